@@ -46,6 +46,7 @@ class SimulationAlgorithmGraphBase
 
     long long Poisson(double lambda)
         {
+        if(!(lambda > 0)) return 0; // std::poisson_distribution requires a strictly positive mean
         return std::poisson_distribution<long long>(lambda)(rng);
         }
 
